@@ -255,6 +255,16 @@ def nd_getitem(ex, arr, key, prefer_vec=False):
     return r
 
 
+def _pick_item(items, i):
+    c = as_const(i) if is_z3(i) else i
+    if isinstance(c, int):
+        return items[c]
+    e = items[-1]
+    for t in range(len(items) - 2, -1, -1):
+        e = zite(to_z3(i) == t, items[t], e)
+    return e
+
+
 def _same_mask(a, b):
     if a is b:
         return True
@@ -263,6 +273,12 @@ def _same_mask(a, b):
 
 
 def nd_setitem(ex, arr, key, v):
+    if arr.dtype == "bool" and _is_scalar(v) and not isinstance(v, bool) and not is_sym_bool(v):
+        v = (v != 0) if not is_z3(v) else (to_z3(v) != 0)        # a boolean array keeps its dtype
+    if isinstance(key, Vec) and key.kind == "array" and key.items and all(isinstance(k, bool) or is_sym_bool(k) for k in key.items) \
+            and arr.ndim == 1:
+        ke = list(key.items)
+        key = NDArray([len(ke)], lambda ix, ke=ke: _pick_item(ke, ix[0]), "bool")
     if isinstance(key, NDArray) and key.dtype == "bool" and key.ndim == arr.ndim:
         me, _ = key.snapshot()
         if isinstance(v, MaskedSel):
